@@ -127,6 +127,40 @@ def run(ck):
                 cases.append((len(cases), cq))
                 if leaf_inputs[0][2] != 'torch.float32':
                     ck.violation(f'leaf targets have dtype {leaf_inputs[0][2]} for representation {rep}', dict(desc, rep=rep), key='leaf-dtype')
+    # ---- a label alphabet that fills the integer width it is stored in: 128 classes in int8 (largest label 127 = the largest int8), 256 classes in uint8 — the width
+    #      is a storage detail of the caller, the fitted predictions are those of the same labels stored in 64 bits
+    for j, (Kw, wdt) in enumerate([(128, 'int8'), (256, 'uint8')]):
+        nW = 2 * Kw + 7; d = 3
+        Xw = xr.make_X('random', nW, d, rng); labw = np.arange(nW) % Kw; rng.shuffle(labw)
+        Xvw = xr.make_X('random', Kw, d, rng); labvw = rng.permutation(Kw)
+        Qw = xr.make_X('random', 20, d, rng)
+        ctorw = dict(rfm_params=xr.default_rfm_params(iters=0, reg=1e-2, bandwidth=3.0), max_leaf_size=10_000, verbose=False, use_temperature_tuning=False,
+                     classification_mode=['zero_one', 'prevalence'][j % 2])
+        descw = dict(kind='label alphabet fills the integer width', K=Kw, width=wdt, n=nW, enc=ctorw['classification_mode'], seed=ck.seed)
+        outs = {}
+        for (yc, ydt, ysh) in [('array', 'int64', 'flat'), ('array', wdt, 'flat'), ('tensor', wdt, 'column')]:
+            rep = dict(y=(yc, ydt, ysh))
+            mkw = lambda a: (lambda b: torch.tensor(b) if yc == 'tensor' else b)(a.astype(ydt).reshape(-1, 1) if ysh == 'column' else a.astype(ydt))
+            xr.seed_all(2900 + j + ck.seed)
+            mw = xr.xRFM(**copy.deepcopy(ctorw))
+            try:
+                with xr.quiet():
+                    mw.fit(Xw, mkw(labw), Xvw, mkw(labvw))
+                    outs[(yc, ydt, ysh)] = (np.asarray(mw.predict(Qw)), np.asarray(mw.predict_proba(Qw)))
+            except Exception as e:
+                ck.violation(f'representation {rep} is rejected ({e!r}) on {descw}', dict(descw, rep=rep, error=repr(e)), key=json.dumps(dict(site='rejected', y=ydt)))
+                continue
+            ck.case(dict(descw, rep=rep), nontrivial=True); ck.count(f'{Kw} classes stored as {ydt}')
+            pw, prw = outs[(yc, ydt, ysh)]
+            if prw.shape != (len(Qw), Kw) or pw.shape != (len(Qw),):
+                ck.violation(f'{Kw} classes stored as {ydt}: predictions / probabilities have shapes {pw.shape} / {prw.shape}, expected ({len(Qw)},) / ({len(Qw)}, {Kw}) on {descw}',
+                             dict(descw, rep=rep), key=json.dumps(dict(site='representation', what='width-filling alphabet shape')))
+            elif ('array', 'int64', 'flat') in outs and (yc, ydt, ysh) != ('array', 'int64', 'flat'):
+                p0, pr0 = outs[('array', 'int64', 'flat')]
+                if not np.array_equal(p0, pw) or not np.array_equal(pr0, prw):
+                    ck.violation(f'{Kw} classes stored as {ydt} ({yc}, {ysh}) give other predictions than the same labels stored as int64 '
+                                 f'({int((p0 != pw).sum())} of {len(pw)} labels differ) on {descw}', dict(descw, rep=rep),
+                                 key=json.dumps(dict(site='representation', what='width-filling alphabet')))
     # ---- targets that are already binarised / one-hot FLOATS, fitted under a classification metric (the library's documented second way of passing
     #      classification targets): float32 / float64, tensors / arrays, (n,) / (n,1) for the binary case, (n,K) one-hot; split and single-leaf trees
     for i in range(ck.n(4, 12)):
